@@ -2,7 +2,7 @@
    tokenizer returns on the remaining stream, for every read schedule without I/O failures and
    every buffer that can hold the longest atom; hence run_stream = run_slice. *)
 From JV Require Import Bytes Tables U64Swar BufWin TextTok TextReader TextRef.
-From JV.proofs Require Import BufWinProofs TextReaderProofs TextRefProofs TextFbProofs.
+From JV.proofs Require Import BufWinProofs TextReaderProofs TextRefProofs TextFbProofs SwarLaneProofs TextFastProofs.
 From Coq Require Import Lia List Arith.
 Import ListNotations.
 Open Scope nat_scope.
@@ -15,12 +15,19 @@ Definition capok (b : bufwin) (d : rd) (n : nat) : Prop :=
 
 Definition stream_of (r : reader) : bytes := win (rbw r) ++ rest (rrd r).
 
-Definition stepres (input : bytes) (capv : nat) (res : tres) (out : nres) : Prop :=
+Definition stepres (input : bytes) (capv nr : nat) (res : tres) (out : nres) : Prop :=
   match res with
-  | RTok t s' => exists r', out = NTok t r' /\ rok input r' /\ stream_of r' = s' /\ cap (rbw r') = capv
+  | RTok t s' => exists r', out = NTok t r' /\ rok input r' /\ stream_of r' = s' /\
+                            cap (rbw r') = capv /\ length (rest (rrd r')) <= nr
   | REnd => exists r', out = NEnd r' /\ rok input r' /\ stream_of r' = []
   | REof k => exists r', out = NErr E_Eof r' /\ rok input r' /\ length (stream_of r') = k
   end.
+
+Lemma stepres_mono input capv nr nr' res out : nr <= nr' -> stepres input capv nr res out -> stepres input capv nr' res out.
+Proof.
+  intros Hle. destruct res as [t s'| |k]; cbn [stepres]; [|auto|auto].
+  intros (r' & H1 & H2 & H3 & H4 & H5). exists r'. repeat split; try assumption; try apply H2. lia.
+Qed.
 
 (* ---------- the buffer ---------- *)
 Lemma fill_cases b d : no_fail (sched d) ->
@@ -161,7 +168,7 @@ Theorem refill_spec input : forall nrest fuel r st c o start',
   (st = PNone -> start' = Nat.eqb (reader_position r + (length (win (rbw r)) - c)) 0 && N.eqb (rbom r) 0) ->
   capok (rbw r) (rrd r)
         (snd (tk start' (patom st (skipn (length (win (rbw r)) - c) (win (rbw r))) ++ rest (rrd r)))) ->
-  stepres input (cap (rbw r))
+  stepres input (cap (rbw r)) (length (rest (rrd r)))
         (fst (tk start' (patom st (skipn (length (win (rbw r)) - c) (win (rbw r))) ++ rest (rrd r))))
         (refill fuel r st c o).
 Proof.
@@ -217,7 +224,7 @@ Proof.
       destruct (rok_advance input b2 d2 bom bom (length (win b2)) (Hrok2 bom) (le_n _)) as [Hadv Hr3].
       rewrite Hadv. eexists. split; [|split; [exact Hr3|]].
       * rewrite Hw2. rewrite firstn_all2 by lia. reflexivity.
-      * unfold stream_of. cbn [rbw rrd win with_bw cap]. rewrite skipn_all, Hr2. split; [reflexivity|exact Hcap2].
+      * unfold stream_of. cbn [rbw rrd win with_bw cap]. rewrite skipn_all, Hr2. split; [reflexivity|]. split; [exact Hcap2|]. lia.
   - (* more data arrived *)
     assert (Hbsne : bs <> []) by (intros ->; discriminate).
     assert (Hlt : length (rest d2) < nrest).
@@ -240,6 +247,7 @@ Proof.
       * destruct Hfb as (Hc' & Hp' & Hb2 & (m & Hm)).
         rewrite Hm, fst_bump.
         replace (cap b) with (cap (rbw (mkreader b2 d2 bom'))) by exact Hcap2.
+        apply (stepres_mono _ _ (length (rest (rrd (mkreader b2 d2 bom'))))); [cbn [rrd]; rewrite Hsplit, app_length; lia|].
         apply (IH (length (rest d2)) Hlt f (mkreader b2 d2 bom') st' c' o'); cbn [rbw rrd rbom].
         -- lia.
         -- lia.
@@ -261,7 +269,7 @@ Proof.
         rewrite Hm. cbn [fst stepres]. unfold emit. cbn [rbw].
         destruct (rok_advance input b2 d2 bom' bom' k (Hrok2 bom') ltac:(lia)) as [Hadv Hr3].
         rewrite Hadv. eexists. split; [reflexivity|]. split; [exact Hr3|].
-        unfold stream_of. cbn [rbw rrd win with_bw cap]. split; [|exact Hcap2].
+        unfold stream_of. cbn [rbw rrd win with_bw cap]. split; [|split; [exact Hcap2|rewrite Hsplit, app_length; lia]].
         rewrite skipn_app_le by lia. reflexivity.
     + (* Quote: resume the scan at offset *)
       destruct Hpend as [-> (Ho & Hres & Hge)]. cbn [rbw rrd rbom].
@@ -279,11 +287,12 @@ Proof.
         destruct (rok_advance input b2 d2 bom bom (S i) (Hrok2 bom) ltac:(lia)) as [Hadv Hr3].
         rewrite Hadv. eexists. split; [|split; [exact Hr3|]].
         -- rewrite firstn_app_le by lia. reflexivity.
-        -- unfold stream_of. cbn [rbw rrd win with_bw cap]. split; [|exact Hcap2].
+        -- unfold stream_of. cbn [rbw rrd win with_bw cap]. split; [|split; [exact Hcap2|rewrite Hsplit, app_length; lia]].
            rewrite skipn_app_le by lia. reflexivity.
       * (* still open: carry the whole window, resume where the scan stopped *)
         destruct Hgen as (j & Hj1 & Hj2 & Hj3). rewrite skipn_length in Hj2.
         replace (cap b) with (cap (rbw (mkreader b2 d2 bom))) by exact Hcap2.
+        apply (stepres_mono _ _ (length (rest (rrd (mkreader b2 d2 bom))))); [cbn [rrd]; rewrite Hsplit, app_length; lia|].
         assert (Hpat : (34%N :: cb) ++ rest d = patom PQuote (skipn (length (win b2) - length (win b2)) (win b2)) ++ rest d2).
         { rewrite Nat.sub_diag. cbn [skipn patom app]. rewrite Hstream. reflexivity. }
         rewrite Hpat in *.
@@ -328,10 +337,11 @@ Proof.
         destruct (rok_advance input b2 d2 bom bom (S i0) (Hrok2 bom) ltac:(rewrite Hw2, app_length; lia)) as [Hadv Hr3].
         rewrite Hadv. rewrite <- Hsplit, Hstream. eexists. split; [|split; [exact Hr3|]].
         -- rewrite firstn_app_le by (rewrite Hw2, app_length; lia). reflexivity.
-        -- unfold stream_of. cbn [rbw rrd win with_bw cap]. split; [|exact Hcap2].
+        -- unfold stream_of. cbn [rbw rrd win with_bw cap]. split; [|split; [exact Hcap2|rewrite Hsplit, app_length; lia]].
            rewrite skipn_app_le by (rewrite Hw2, app_length; lia). reflexivity.
       * rewrite Hsh in Escan. destruct (find_from is_boundary bs (length cb')) as [i0|] eqn:E0; [discriminate|].
         replace (cap b) with (cap (rbw (mkreader b2 d2 bom))) by exact Hcap2.
+        apply (stepres_mono _ _ (length (rest (rrd (mkreader b2 d2 bom))))); [cbn [rrd]; rewrite Hsplit, app_length; lia|].
         assert (Hpat : cb ++ rest d = patom PUnq (skipn (length (win b2) - length (win b2)) (win b2)) ++ rest d2).
         { rewrite Nat.sub_diag. cbn [skipn patom]. exact Hstream. }
         rewrite Hpat in *.
@@ -348,4 +358,91 @@ Proof.
               rewrite Hw2, <- app_assoc. split; [rewrite app_length; lia|exact Hm2].
         -- discriminate.
         -- eapply capok_mono; [exact Hcap|exact Hcap2|lia|exact Hrn].
+Qed.
+
+(* ---------- one call of next_opt_fallback / next_opt ---------- *)
+Definition startb (r : reader) : bool := Nat.eqb (reader_position r) 0 && N.eqb (rbom r) 0.
+
+Lemma start_after pos bom bom' c wl :
+  c <= wl ->
+  (N.eqb bom 0 = false -> bom' = bom) ->
+  (Nat.eqb pos 0 && N.eqb bom 0 && Nat.eqb c wl = true -> bom' = bom) ->
+  Nat.eqb pos 0 && N.eqb bom 0 && Nat.eqb c wl = Nat.eqb (pos + (wl - c)) 0 && N.eqb bom' 0.
+Proof.
+  intros Hc H1 H2. destruct (Nat.eqb c wl) eqn:Ec.
+  - apply Nat.eqb_eq in Ec. subst c. rewrite Nat.sub_diag, Nat.add_0_r, andb_true_r in *.
+    destruct (Nat.eqb pos 0); [|reflexivity]. cbn [andb] in *.
+    destruct (N.eqb bom 0) eqn:Eb.
+    + rewrite (H2 eq_refl). symmetry. exact Eb.
+    + rewrite (H1 eq_refl). symmetry. exact Eb.
+  - apply Nat.eqb_neq in Ec. rewrite andb_false_r. symmetry.
+    replace (Nat.eqb (pos + (wl - c)) 0) with false; [reflexivity|]. symmetry. apply Nat.eqb_neq. lia.
+Qed.
+
+Theorem fallback_step input fuel r :
+  rok input r -> length (rest (rrd r)) + 2 <= fuel ->
+  capok (rbw r) (rrd r) (snd (tk (startb r) (stream_of r))) ->
+  stepres input (cap (rbw r)) (length (rest (rrd r))) (fst (tk (startb r) (stream_of r))) (fallback fuel r).
+Proof.
+  intros Hrok Hfuel Hcap. destruct r as [b d bom]. unfold fallback, startb, stream_of, reader_position in *.
+  cbn [rbw rrd rbom] in *.
+  pose proof (fb_sound (S (S (length (win b)))) (Nat.eqb (bw_position b) 0) (win b) (win b) 0 bom (rest d)
+                eq_refl ltac:(lia) ltac:(destruct (N.eqb bom 0); lia)) as Hfb.
+  rewrite Nat.eqb_refl, andb_true_r in Hfb.
+  destruct (fb _ _ _ _ _ _) as [a bom'] eqn:Efb. destruct Hfb as [Hb1 Hfb]. cbn [fst snd] in Hb1, Hfb.
+  destruct a as [st' c' o'|t adv|site]; [| |contradiction].
+  - destruct Hfb as (Hc' & Hp' & Hb2 & (m & Hm)). rewrite Hm, fst_bump.
+    apply (refill_spec input (length (rest d)) fuel (mkreader b d bom') st' c' o'); cbn [rbw rrd rbom].
+    + lia.
+    + lia.
+    + destruct Hrok as [H1 H2]. split; [exact H1|exact H2].
+    + exact Hc'.
+    + exact Hp'.
+    + intros Hs. unfold reader_position. cbn [rbw]. apply start_after; [exact Hc'|exact Hb1|apply Hb2; exact Hs].
+    + eapply capok_mono; [exact Hcap|reflexivity| |auto]. rewrite Hm. apply snd_bump.
+  - destruct Hfb as (k & m & Hadv & Hk & Hm). cbn [Nat.add] in Hadv. subst adv.
+    rewrite Hm. cbn [fst stepres]. unfold emit. cbn [rbw].
+    assert (Hrok' : rok input (mkreader b d bom')) by (destruct Hrok as [H1 H2]; split; [exact H1|exact H2]).
+    destruct (rok_advance input b d bom' bom' k Hrok' ltac:(lia)) as [Hadv Hr3].
+    rewrite Hadv. eexists. split; [reflexivity|]. split; [exact Hr3|].
+    unfold stream_of. cbn [rbw rrd win with_bw cap]. split; [|split; [reflexivity|lia]].
+    rewrite skipn_app_le by lia. reflexivity.
+Qed.
+
+Lemma rok_wf input r : wf_bytes input -> rok input r -> wf_bytes (win (rbw r)).
+Proof.
+  intros Hwf [(pre & Hin & _) _]. unfold wf_bytes in *. rewrite Hin in Hwf.
+  apply Forall_app in Hwf as [_ Hwf]. apply Forall_app in Hwf as [Hwf _]. exact Hwf.
+Qed.
+
+Definition stepres_ws (input : bytes) (capv nr : nat) (res : tres) (out : nres) : Prop :=
+  match res with
+  | RTok t s' => exists r', out = NTok t r' /\ rok input r' /\
+                            (stream_of r' = s' \/ s' = 32%N :: stream_of r') /\
+                            cap (rbw r') = capv /\ length (rest (rrd r')) <= nr
+  | _ => stepres input capv nr res out
+  end.
+
+Theorem next_opt_step input fuel r :
+  wf_bytes input -> rok input r -> length (rest (rrd r)) + 2 <= fuel ->
+  capok (rbw r) (rrd r) (snd (tk (startb r) (stream_of r))) ->
+  stepres_ws input (cap (rbw r)) (length (rest (rrd r))) (fst (tk (startb r) (stream_of r))) (next_opt fuel r).
+Proof.
+  intros Hwf Hrok Hfuel Hcap. pose proof (fallback_step input fuel r Hrok Hfuel Hcap) as Hfb.
+  destruct (next_opt_fast_eq_fallback fuel r (rok_wf _ _ Hwf Hrok)) as [Heq|(t & i & Hnth & Hf & Hn)].
+  - rewrite Heq. destruct (fst (tk (startb r) (stream_of r))) as [t s'| |k]; cbn [stepres stepres_ws] in *; [|exact Hfb|exact Hfb].
+    destruct Hfb as (r' & H1 & H2 & H3 & H4 & H5). exists r'. auto 10.
+  - rewrite Hf in Hfb. rewrite Hn. unfold emit in *.
+    destruct (bw_advance (rbw r) i) as [bi| | | |] eqn:Eadv.
+    2-5: destruct (fst (tk (startb r) (stream_of r))); cbn [stepres] in Hfb; destruct Hfb as (r' & H1 & _); discriminate.
+    destruct (fst (tk (startb r) (stream_of r))) as [t0 s'| |k]; cbn [stepres stepres_ws] in *;
+      [|destruct Hfb as (r' & H1 & _); discriminate|destruct Hfb as (r' & H1 & _); discriminate].
+    destruct Hfb as (r' & H1 & H2 & H3 & H4 & H5). inversion H1; subst t0 r'. clear H1.
+    assert (Hi : i < length (win (rbw r))) by (apply nth_error_Some; rewrite Hnth; discriminate).
+    destruct r as [b d bom]. cbn [rbw rrd rbom] in *.
+    destruct (rok_advance input b d bom bom (S i) Hrok ltac:(lia)) as [Hadv Hr3].
+    rewrite Hadv. eexists. split; [reflexivity|]. split; [exact Hr3|].
+    unfold stream_of, with_bw in *. cbn [rbw rrd win cap] in *.
+    unfold bw_advance in Eadv. destruct (Nat.ltb (length (win b)) i); [discriminate|]. inversion Eadv; subst bi. cbn [win cap] in *.
+    split; [|split; [reflexivity|lia]]. right. rewrite <- H3. rewrite (skipn_nth_cons _ _ _ Hnth). reflexivity.
 Qed.
